@@ -34,6 +34,10 @@ type Case struct {
 	Decls   []string `json:"decls"`   // declaration chunks, in order (first: imports)
 	Stmts   []string `json:"stmts"`   // statement chunks of the main body, in order
 	Variant string   `json:"variant"` // which entry point / piecewise mode is compared with whole Eval
+	// Shadowed are the package-level variables which the main body redeclares
+	// with := as its own: evaluated as a chunk, such a statement redefines the
+	// package-level name, so these names are left out of the final state.
+	Shadowed []string `json:"shadowed,omitempty"`
 }
 
 type syncBuf struct {
@@ -88,7 +92,7 @@ func errText(err error) string {
 
 // globalsOf renders the package-level variables named g* (read-only basic
 // values in generated programs).
-func globalsOf(i *interp.Interpreter) (res string) {
+func globalsOf(i *interp.Interpreter, skip []string) (res string) {
 	defer func() {
 		if p := recover(); p != nil {
 			res = fmt.Sprintf("Globals() panicked: %v", p)
@@ -96,8 +100,12 @@ func globalsOf(i *interp.Interpreter) (res string) {
 	}()
 	g := i.Globals()
 	var names []string
+	skipped := map[string]bool{}
+	for _, k := range skip {
+		skipped[k] = true
+	}
 	for k := range g {
-		if strings.HasPrefix(k, "g") && len(k) > 1 && k[1] >= 'A' && k[1] <= 'Z' {
+		if strings.HasPrefix(k, "g") && len(k) > 1 && k[1] >= 'A' && k[1] <= 'Z' && !skipped[k] {
 			names = append(names, k)
 		}
 	}
@@ -206,7 +214,7 @@ func whole(c *Case, variant, scratch string) result {
 	if r.stuck {
 		return r
 	}
-	r.stdout, r.err, r.globals = out.String(), errText(err), globalsOf(i)
+	r.stdout, r.err, r.globals = out.String(), errText(err), globalsOf(i, c.Shadowed)
 	return r
 }
 
@@ -242,7 +250,7 @@ func piecewise(c *Case, viaCompile bool) result {
 	if r.stuck {
 		return r
 	}
-	r.stdout, r.err, r.globals = out.String(), errText(err), globalsOf(i)
+	r.stdout, r.err, r.globals = out.String(), errText(err), globalsOf(i, c.Shadowed)
 	return r
 }
 
@@ -336,8 +344,11 @@ func cut(t *rapid.T, xs []string, label string) []string {
 
 func genCase(t *rapid.T, cfg *progen.Config) (*Case, []string) {
 	p := progen.Generate(t, cfg)
-	c := &Case{Src: p.Src}
+	c := &Case{Src: p.Src, Shadowed: p.ShadowedGlobals}
 	var labels []string
+	if len(c.Shadowed) > 0 {
+		labels = append(labels, "main-shadows-package-variable")
+	}
 	var imports []string
 	for _, im := range p.Parts.Imports {
 		imports = append(imports, fmt.Sprintf("import %q", im))
@@ -354,6 +365,13 @@ func genCase(t *rapid.T, cfg *progen.Config) (*Case, []string) {
 		var ls []string
 		for _, l := range strings.Split(strings.TrimRight(s, "\n"), "\n") {
 			ls = append(ls, strings.TrimPrefix(l, "\t"))
+		}
+		// the incremental parser decides from the first token whether a chunk holds
+		// declarations or statements: the one-line var declarations which open a
+		// statement group (range in assignment form) are given as items of their own
+		for len(ls) > 1 && strings.HasPrefix(ls[0], "var ") && !strings.HasSuffix(ls[0], "{") && !strings.HasSuffix(ls[0], "(") {
+			stmts = append(stmts, ls[0])
+			ls = ls[1:]
 		}
 		stmts = append(stmts, strings.Join(ls, "\n"))
 	}
